@@ -113,7 +113,7 @@ impl Wallet {
             16 => CovSpec::TimeLock(height + r.below(3)),
             17 => CovSpec::IndexIs(r.below(3) as u8),
             18 => CovSpec::Heavy,
-            _ => *r.pick(&[&CovSpec::Never, &CovSpec::Undecodable]).clone(),
+            _ => if r.chance(1, 2) { CovSpec::Never } else { CovSpec::Undecodable },
         }
         .clone()
     }
@@ -317,7 +317,8 @@ fn balance(r: &mut Rng, w: &mut Wallet, inputs: &[WCoin], mut outs: Vec<CoinData
 }
 
 pub fn gen_normal(r: &mut Rng, w: &mut Wallet, cx: &Ctx) -> Option<Transaction> {
-    let inputs = pick_inputs(r, cx, r.below(3) as usize, None)?;
+    let extra = r.below(3) as usize;
+    let inputs = pick_inputs(r, cx, extra, None)?;
     let mut outs = vec![];
     if r.chance(1, 5) {
         outs.push(out(w.rand_addr(r, cx.height), r.u128() % (1 << 60), Denom::NewCustom));
@@ -542,12 +543,14 @@ pub fn mutate(r: &mut Rng, w: &Wallet, tx: &mut Transaction, inputs_known: &[WCo
             "value>max"
         }
         9 => {
-            tx.data = r.bytes(r.below(40) as usize).into();
+            let n = r.below(40) as usize;
+            tx.data = r.bytes(n).into();
             resign(tx);
             "random-data"
         }
         10 => {
-            tx.covenants.push(r.bytes(r.below(12) as usize).into());
+            let n = r.below(12) as usize;
+            tx.covenants.push(r.bytes(n).into());
             "extra-covenant"
         }
         11 if !tx.inputs.is_empty() => {
